@@ -62,6 +62,8 @@ struct Batch { std::vector<std::pair<z3::expr, std::string> > obs; void add(cons
 void reach(const std::string& label);
 // Decide obligations in a fresh non-incremental solver (z3's incremental core can diverge on to_int/is_int terms).
 void fresh_obligations(bool on);
+// 0: incremental z3 then fresh z3 then cvc5; 1: fresh z3 first; 2: cvc5 (external process) first.
+void obligation_solver(int mode);
 // A concrete (non-solver) requirement evaluated by the harness itself.
 void require(bool ok, const std::string& label);
 // Free-form coverage note (e.g. a status word); histogrammed in the evidence.
